@@ -614,6 +614,7 @@ func RunOne(t *testing.T, sc *Scenario, tr *vh.Tracer, base string) bool {
 		})
 	}
 	rng := rand.New(rand.NewSource(sc.Seed))
+	heldSeen := false
 	hang := ps.Run(func(step int, pend []*vh.POp) int {
 		if step < len(sc.Prefix) {
 			return sc.Prefix[step]
@@ -625,13 +626,19 @@ func RunOne(t *testing.T, sc *Scenario, tr *vh.Tracer, base string) bool {
 					return i // operation 1 goes on until it has its snapshot
 				}
 				if p.Idx == 0 {
-					held = i
+					held, heldSeen = i, true
 				}
+			}
+			if !heldSeen {
+				return -1 // operation 1 is still on its way to the snapshot (or blocked): wait for it
 			}
 			for i, p := range pend {
 				if p.Idx != 0 {
 					return i // then the others run to their end
 				}
+			}
+			if ps.Running() > 0 {
+				return -1 // another operation is still on its way (or blocked on the lock the held one has): wait
 			}
 			if held >= 0 {
 				return held
